@@ -20,6 +20,7 @@
      the handshake completes with fragment size 2. *)
 From Coq Require Import List NArith ZArith Arith Bool Lia.
 From Iodine Require Import Generated.SrcConsts Base Codec CodecProofs Hostname DnsName DnsMsg Relay Negotiate NegotiateProofs.
+From Iodine Require Server ServerAuthDefs ServerAuthFinal.
 Import ListNotations.
 Local Open Scope N_scope.
 
@@ -247,3 +248,26 @@ Example C11_example :
   (o_rv o1, o_qtype o1, o_up o1, o_down o1, o_frag o1) = (0, T_NULL, 3, 32, 1522) /\
   (o_rv o2, o_qtype o2, o_up o2, o_down o2) = (0, T_CNAME, 0, 32) /\ 0 < o_frag o2.
 Proof. vm_compute. repeat split; reflexivity. Qed.
+
+(* Negotiation starts from the same server state for every client: the version handshake that hands a slot to a new
+   client (a fresh one or one taken back from a client silent for more than 60 s) leaves it with upstream codec Base32,
+   downstream codec 'T' (Base32), fragment size 100, immediate (non-lazy) DNS mode, no packet in either direction, an
+   empty ring of pending packets and empty answer / query memories -- whatever the previous owner had negotiated.  A
+   client that keeps Base32 because its path folds letter case sends no switch command and relies on exactly this
+   (second-session stage of checks/c11.py: two real handshakes in a row on one real server). *)
+Theorem C11_new_session_starts_from_defaults : forall login zc unz c st now rnd q dl i st' outs,
+  ServerAuthDefs.dispatch c q = Some dl -> (2 <= dl)%nat -> Server.is_letter (Server.chr (Server.h_name q) 0) 118 = true ->
+  ServerAuthDefs.version_of (ServerAuthDefs.req_unpacked q dl) = src_PROTOCOL_VERSION -> Server.find_available_from st now 0 = Some i ->
+  Server.step login zc unz c st (Server.EDns now rnd q) = (st', outs) ->
+  let u := Server.getu st' i in
+  Server.u_enc u = 0%N /\ Server.u_downenc u = 84%N /\ Server.u_fragsize u = 100%N /\ Server.u_lazy u = false /\
+  Server.u_conn u = Server.CONN_DNS /\
+  Server.p_len (Server.u_out u) = 0%N /\ Server.p_len (Server.u_in u) = 0%N /\
+  Server.p_seqno (Server.u_out u) = 0%N /\ Server.p_seqno (Server.u_in u) = 0%N /\
+  Server.u_queue_filled u = O /\ Server.u_auth u = false.
+Proof.
+  intros login zc unz c st now rnd q dl i st' outs Hd Hl Hv Hp Hf Hs.
+  destruct (ServerAuthFinal.final_claim login zc unz c st now rnd q dl i st' outs Hd Hl Hv Hp Hf Hs) as (E & _ & Ha & _).
+  cbn zeta. rewrite E. repeat split; try reflexivity. all: rewrite <- E; exact Ha.
+Qed.
+Print Assumptions C11_new_session_starts_from_defaults.
